@@ -109,6 +109,10 @@ pub fn run_case(case: &Case, names: &HashMap<String, u16>, root: &PathBuf) {
                         if interesting {
                             writeln!(o, "RQ@{} keys_up={} tsi={} req_after={}", tick, after.1 as u8, after.2, after.0 as u8).unwrap();
                         }
+                        // the request was consumed in this millisecond: the decision inputs it was taken on
+                        if before.0 && !after.0 {
+                            writeln!(o, "RA@{} keys_up={} tsi={}", tick, before.1 as u8, before.2).unwrap();
+                        }
                         for ev in k.kbd_out.outputs.events.drain(..) {
                             if let Some(c) = canon_event(&ev, names) {
                                 pending.push(c);
